@@ -25,8 +25,11 @@ ASSUMPTIONS = [
 ]
 
 NAMES = ["sel", "notepad", "android", "order", "allx", "anyof", "of_x", "them2", "1st", "_inj", "a-b",
-         "filter_1", "filter_2", "not-b", "sel2", "x_1", "notb", "orb", "andb", "b", "Sel"]
-PATTERNS = ["them", "sel*", "*_1", "f*_*", "_*", "*", "not*", "*b", "filter_1", "zzz*", "a*"]
+         "filter_1", "filter_2", "not-b", "sel2", "x_1", "notb", "orb", "andb", "b", "Sel",
+         # names that are substrings of the word 'condition', names matching only part of a multi-star pattern
+         "on", "cond", "it", "c", "fx", "filterx", "sel_x_1", "proc_a_susp1", "proc_b"]
+PATTERNS = ["them", "sel*", "*_1", "f*_*", "_*", "*", "not*", "*b", "filter_1", "zzz*", "a*",
+            "f*_1*", "proc_*_susp*", "*_x_*", "s*l*_*1", "*o*", "c*"]
 KEYWORDY = ("not", "and", "or", "all", "any", "of", "them", "1")
 
 
@@ -151,7 +154,11 @@ def run_impl(case):
     if case.get("first"):
         try:
             f = SigmaDetections.from_dict({**{n: [f"m{i}"] for i, n in enumerate(case["first"])}, "condition": case["text"]})
-            f.parsed_condition[0].parsed
+            if len(case["first"]) % 2:
+                f.parsed_condition[0].parsed
+            else:       # the two-step API: the raw parse, post-processed by the caller
+                t0 = f.parsed_condition[0].parse(False)
+                t0.postprocess(f)
         except Exception:
             pass
     try:
